@@ -1,3 +1,7 @@
+(* C06 -- the transitions as they were BEFORE the fixes 9cca1b6 (prototype-slot entries validated), 8ab7f21 (unique shape gets a
+   new identity on a same-width attribute change) and 8316c55 (cached set on a setter-less accessor throws), kept verbatim as
+   a self-contained module (refer to it qualified: Old_C06.run_cached = "run_cached_old", ...), together with the refutation
+   witnesses that documented the four findings.  Nothing else depends on this file.  The current model is Model_C06.v. *)
 (* C06 -- inline caches are semantically transparent: executable model (definitions only).
 
    Transliterated from
@@ -271,9 +275,7 @@ Definition shape_change_attrs (h : heap) (s : shape) (k : key) (a : dattrs) (old
   | ShUnique u =>
       us <- nthN (h_ushapes h) u ;;
       if a_width_match old a then
-        (* the table is handed to a new unique shape: pointers to the old one (inline caches) are invalidated *)
-        let (h', u') := new_ushape h {| u_proto := u_proto us; u_tab := table_set_attrs (u_tab us) k a |} in
-        Some (h', ShUnique u', ActNothing)
+        Some (set_ushape h u {| u_proto := u_proto us; u_tab := table_set_attrs (u_tab us) k a |}, s, ActNothing)
       else
         let (h', u') := new_ushape h {| u_proto := u_proto us; u_tab := table_change_width (u_tab us) k a |} in
         Some (h', ShUnique u', if a_is_accessor a then ActInsert else ActRemove)
@@ -640,10 +642,7 @@ Definition skind_eqb (a b : skind) : bool :=
 Definition siteid := (skind * N * key)%type.
 Definition siteid_eqb (a b : siteid) : bool :=
   let '(ka, na, xa) := a in let '(kb, nb, xb) := b in skind_eqb ka kb && N.eqb na nb && N.eqb xa xb.
-(* CacheEntry: the receiver's shape, for PROTOTYPE-flagged slots the shape the prototype object had when the entry was
-   created, and the slot *)
-Record entry := { e_shape : shape; e_pshape : option shape; e_slot : slot }.
-Record cache := { c_entries : list entry; c_mega : bool }.
+Record cache := { c_entries : list (shape * slot); c_mega : bool }.
 Definition cache_new : cache := {| c_entries := []; c_mega := false |}.
 Definition sites := list (siteid * cache).
 Fixpoint site_get (ss : sites) (id : siteid) : cache :=
@@ -657,56 +656,23 @@ Fixpoint site_put (ss : sites) (id : siteid) (c : cache) : sites :=
   | (id', c') :: r => if siteid_eqb id' id then (id', c) :: r else (id', c') :: site_put r id c
   end.
 
-(* InlineCache::entry_is_current: what the receiver's shape identity does not cover for a PROTOTYPE-flagged entry *)
-Definition is_unique_shape (s : shape) : bool := match s with ShUnique _ => true | ShShared _ => false end.
-Definition entry_is_current (h : heap) (k : key) (e : entry) (s : shape) : bool :=
-  if negb (has_flag (s_attrs (e_slot e)) sf_PROTOTYPE) then true
-  else if is_unique_shape s && is_some (lookup_shape h s k) then false
-  else match e_pshape e with
-       | None => false
-       | Some expected =>
-           match shape_proto h s with
-           | None => false
-           | Some p => match get_obj h p with
-                       | Some px => shape_eqb (o_shape px) expected
-                       | None => false
-                       end
-           end
-       end.
-
-(* ArrayVec::swap_remove *)
-Definition swap_remove {A} (l : list A) (i : nat) : list A :=
-  match rev l with
-  | [] => l
-  | lst :: _ => firstn i l ++ (if Nat.eqb (S i) (length l) then [] else lst :: removelast (skipn (S i) l))
-  end.
-Fixpoint find_entry (es : list entry) (s : shape) (i : nat) : option (nat * entry) :=
+(* InlineCache::get (no weak entry is dead here: collection is the separate op OEvict) *)
+Fixpoint find_entry (es : list (shape * slot)) (s : shape) : option slot :=
   match es with
   | [] => None
-  | e :: r => if shape_eqb (e_shape e) s then Some (i, e) else find_entry r s (S i)
+  | (s', sl) :: r => if shape_eqb s' s then Some sl else find_entry r s
   end.
-(* InlineCache::get (no weak shape is dead here: collection is the separate op OpEvict); returns the updated cache: a
-   stale PROTOTYPE entry is removed and the lookup is a miss *)
-Definition ic_get (c : cache) (h : heap) (k : key) (s : shape) : option slot * cache * list icev :=
-  if c_mega c then (None, c, [EvMega])
-  else match find_entry (c_entries c) s 0 with
-       | Some (i, e) =>
-           if entry_is_current h k e s then (Some (e_slot e), c, [EvHit])
-           else (None, {| c_entries := swap_remove (c_entries c) i; c_mega := false |}, [EvMiss])
-       | None => (None, c, [EvMiss])
+Definition ic_get (c : cache) (s : shape) : option slot * list icev :=
+  if c_mega c then (None, [EvMega])
+  else match find_entry (c_entries c) s with
+       | Some sl => (Some sl, [EvHit])
+       | None => (None, [EvMiss])
        end.
 (* InlineCache::set *)
-Definition pshape_of (h : heap) (s : shape) (sl : slot) : option shape :=
-  if has_flag (s_attrs sl) sf_PROTOTYPE then
-    match shape_proto h s with
-    | Some p => match get_obj h p with Some px => Some (o_shape px) | None => None end
-    | None => None
-    end
-  else None.
-Definition ic_set (c : cache) (h : heap) (s : shape) (sl : slot) : cache * list icev :=
+Definition ic_set (c : cache) (s : shape) (sl : slot) : cache * list icev :=
   if c_mega c then (c, [EvRefused])
   else if N.ltb (lenN (c_entries c)) sf_PIC_CAPACITY
-       then ({| c_entries := c_entries c ++ [{| e_shape := s; e_pshape := pshape_of h s sl; e_slot := sl |}]; c_mega := false |}, [EvStore])
+       then ({| c_entries := c_entries c ++ [(s, sl)]; c_mega := false |}, [EvStore])
        else ({| c_entries := []; c_mega := true |}, [EvStore]).
 
 Record state := { st_heap : heap; st_sites : sites }.
@@ -727,8 +693,8 @@ Definition cached_get (ic : bool) (glob : bool) (st : state) (id : siteid) (o : 
   match get_obj h o with
   | None => Some ([ONoObj], st)
   | Some x =>
-      let c0 := site_get (st_sites st) id in
-      let '(hit, c, ev) := if ic then ic_get c0 h k (o_shape x) else (None, c0, []) in
+      let c := site_get (st_sites st) id in
+      let '(hit, ev) := if ic then ic_get c (o_shape x) else (None, []) in
       match hit with
       | Some sl =>
           stg <- hit_store h x sl ;;
@@ -740,7 +706,7 @@ Definition cached_get (ic : bool) (glob : bool) (st : state) (id : siteid) (o : 
           Some (tr ++ [OVal result; OIC ev], st)
       | None =>
           '(tr, r, sl) <- ordinary_try_get (chain_fuel h) h o k slot_new ;;
-          let '(c', ev') := if ic && sf_is_cacheable (s_attrs sl) then ic_set c h (o_shape x) sl else (c, []) in
+          let '(c', ev') := if ic && sf_is_cacheable (s_attrs sl) then ic_set c (o_shape x) sl else (c, []) in
           let st' := {| st_heap := h; st_sites := if ic then site_put (st_sites st) id c' else st_sites st |} in
           match r with
           | Some v => Some (tr ++ [OVal v; OIC (ev ++ ev')], st')
@@ -757,17 +723,17 @@ Definition cached_set (ic : bool) (st : state) (id : siteid) (o : objid) (v : va
   match get_obj h o with
   | None => Some ([ONoObj], st)
   | Some x =>
-      let c0 := site_get (st_sites st) id in
-      let '(hit, c, ev) := if ic then ic_get c0 h k (o_shape x) else (None, c0, []) in
+      let c := site_get (st_sites st) id in
+      let '(hit, ev) := if ic then ic_get c (o_shape x) else (None, []) in
       match hit with
       | Some sl =>
           let i := s_index sl in
           if sf_is_accessor_descriptor (s_attrs sl) then
             stg <- hit_store h x sl ;;
             result <- nthN stg (i + 1) ;;
-            if sf_has_set (s_attrs sl) && is_object result
-            then Some ((match result with VFun f => call_setter f v | _ => [] end) ++ [OBool true; OIC ev], st)
-            else Some ([OTypeErr; OIC ev], st)          (* strict code: "cannot set property: the accessor has no setter" *)
+            let tr := if sf_has_set (s_attrs sl) && is_object result
+                      then match result with VFun f => call_setter f v | _ => [] end else [] in
+            Some (tr ++ [OBool true; OIC ev], st)
           else if has_flag (s_attrs sl) sf_PROTOTYPE then
             p <- shape_proto h (o_shape x) ;;
             px <- get_obj h p ;;
@@ -783,7 +749,7 @@ Definition cached_set (ic : bool) (st : state) (id : siteid) (o : objid) (v : va
       | None =>
           '(tr, h', ok, sl) <- ordinary_set (chain_fuel h) h o k v o slot_new ;;
           x' <- get_obj h' o ;;
-          let '(c', ev') := if ic && ok && sf_is_cacheable (s_attrs sl) then ic_set c h' (o_shape x') sl else (c, []) in
+          let '(c', ev') := if ic && ok && sf_is_cacheable (s_attrs sl) then ic_set c (o_shape x') sl else (c, []) in
           let st' := {| st_heap := h'; st_sites := if ic then site_put (st_sites st) id c' else st_sites st |} in
           Some (tr ++ [if ok then OBool true else OTypeErr; OIC (ev ++ ev')], st')
       end
@@ -903,53 +869,177 @@ Definition observable (r : list (option (list out))) : list (option (list out)) 
 Definition run_cached (ops : list op) := run true init ops.
 Definition run_uncached (ops : list op) := run false init ops.
 
-(* ------------------------------------------------------------------------------------------- the residual class
-   The only place left where the hit path differs from the slow path: an accessor slot without GET (resp. SET) flag, or
-   holding a getter that is neither callable nor undefined.  No JavaScript-level operation produces such a slot (descriptors
-   are completed to both fields and ToPropertyDescriptor rejects non-callable accessors); only direct PropertyMap::insert
-   calls of builtins do (e.g. getter-only accessors).  [first_irregular] is evaluated by the check on every history. *)
-Definition hit_irregular (st : state) (o : op) : bool :=
+(* ------------------------------------------------------------------------------------------- the known class
+   What a cache entry (sigma, slot) of a site for key k rests on: the own lookup of k in sigma, sigma's
+   prototype, and (PROTOTYPE-flagged entries) the own lookup of k in that prototype object's *current* shape.
+   A heap step *disturbs* the entry when one of the three changes while the entry stays in the cache. *)
+Definition tslot_eqb (a b : tslot) : bool := N.eqb (fst a) (fst b) && dattrs_eqb (snd a) (snd b).
+Definition entry_deps (h : heap) (k : key) (e : shape * slot)
+  : option tslot * option objid * option (option tslot) :=
+  let '(s, sl) := e in
+  (lookup_shape h s k, shape_proto h s,
+   if has_flag (s_attrs sl) sf_PROTOTYPE then
+     Some (match shape_proto h s with
+           | Some p => match get_obj h p with Some px => lookup_shape h (o_shape px) k | None => None end
+           | None => None
+           end)
+   else None).
+Definition deps_eqb (a b : option tslot * option objid * option (option tslot)) : bool :=
+  let '(l1, p1, q1) := a in let '(l2, p2, q2) := b in
+  opt_eqb tslot_eqb l1 l2 && opt_eqb N.eqb p1 p2 && opt_eqb (opt_eqb tslot_eqb) q1 q2.
+
+Inductive kclass :=
+| KProtoLayout        (* PROTOTYPE-flagged entry, the prototype object's own layout/attributes of the key changed *)
+| KUniqueAttr         (* entry on a unique shape, the key's attributes changed in place (same width) *)
+| KUniqueShadow       (* PROTOTYPE-flagged entry on a unique shape, an own property of that name was inserted in place *)
+| KOther              (* any other dependency change (none is reachable: see disturbed_only_proto_or_unique) *)
+| KSetterMissing      (* cache hit of a strict-mode set on an accessor slot whose setter is not callable: no TypeError *)
+| KGetterIrregular.   (* cache hit of a get on an accessor slot without GET flag / with a non-callable getter (API only) *)
+
+Definition classify_entry (h h' : heap) (k : key) (e : shape * slot) : option kclass :=
+  if deps_eqb (entry_deps h k e) (entry_deps h' k e) then None
+  else
+    let '(l1, p1, q1) := entry_deps h k e in let '(l2, p2, q2) := entry_deps h' k e in
+    if negb (opt_eqb tslot_eqb l1 l2) then
+      match fst e, l1 with
+      | ShUnique _, Some _ => Some KUniqueAttr
+      | ShUnique _, None => Some KUniqueShadow
+      | _, _ => Some KOther
+      end
+    else if negb (opt_eqb N.eqb p1 p2) then Some KOther
+    else Some KProtoLayout.
+
+Fixpoint first_some {A B} (f : A -> option B) (l : list A) : option B :=
+  match l with [] => None | x :: r => match f x with Some y => Some y | None => first_some f r end end.
+Definition disturbed (h h' : heap) (ss : sites) : option kclass :=
+  first_some (fun '((_, _, k), c) => first_some (classify_entry h h' k) (c_entries c)) ss.
+
+(* the two places where the hit path itself differs from the slow path *)
+Definition hit_irregular (st : state) (o : op) : option kclass :=
   let h := st_heap st in
   match o with
   | OpSet s k ob v =>
       match get_obj h ob with
       | Some x =>
-          match fst (fst (ic_get (site_get (st_sites st) (SSet, s, k)) h k (o_shape x))) with
-          | Some sl => sf_is_accessor_descriptor (s_attrs sl) && negb (sf_has_set (s_attrs sl))
-          | None => false
+          match fst (ic_get (site_get (st_sites st) (SSet, s, k)) (o_shape x)) with
+          | Some sl =>
+              if sf_is_accessor_descriptor (s_attrs sl) then
+                if sf_has_set (s_attrs sl) then
+                  match hit_store h x sl with
+                  | Some stg => match nthN stg (s_index sl + 1) with
+                                | Some r => if is_object r then None else Some KSetterMissing
+                                | None => None
+                                end
+                  | None => None
+                  end
+                else Some KSetterMissing
+              else None
+          | None => None
           end
-      | None => false
+      | None => None
       end
   | OpGet _ _ _ | OpGetGlobal _ _ =>
-      let '(id, k, ob) := match o with OpGet s k ob => ((SGet, s, k), k, ob) | OpGetGlobal s k => ((SGlobal, s, k), k, GLOBAL)
-                                    | _ => ((SGet, 0, 0), 0, 0) end in
+      let '(id, ob) := match o with OpGet s k ob => ((SGet, s, k), ob) | OpGetGlobal s k => ((SGlobal, s, k), GLOBAL)
+                                 | _ => ((SGet, 0, 0), 0) end in
       match get_obj h ob with
       | Some x =>
-          match fst (fst (ic_get (site_get (st_sites st) id) h k (o_shape x))) with
+          match fst (ic_get (site_get (st_sites st) id) (o_shape x)) with
           | Some sl =>
-              sf_is_accessor_descriptor (s_attrs sl) &&
-              (if sf_has_get (s_attrs sl) then
-                 match hit_store h x sl with
-                 | Some stg => match nthN stg (s_index sl) with Some (VNum _) => true | _ => false end
-                 | None => false
-                 end
-               else true)
-          | None => false
+              if sf_is_accessor_descriptor (s_attrs sl) then
+                if sf_has_get (s_attrs sl) then
+                  match hit_store h x sl with
+                  | Some stg => match nthN stg (s_index sl) with
+                                | Some (VNum _) => Some KGetterIrregular
+                                | _ => None
+                                end
+                  | None => None
+                  end
+                else Some KGetterIrregular
+              else None
+          | None => None
           end
-      | None => false
+      | None => None
       end
-  | _ => false
+  | _ => None
   end.
 
-(* position of the first such step in the cached run of a history *)
-Fixpoint first_irregular (st : state) (ops : list op) (i : N) : option N :=
+(* class of a step of the cached run, None = the step is outside the known class *)
+Definition known_step (st : state) (o : op) : option kclass :=
+  match hit_irregular st o with
+  | Some c => Some c
+  | None =>
+      match step true st o with
+      | Some (_, st') => disturbed (st_heap st) (st_heap st') (st_sites st)
+      | None => None
+      end
+  end.
+
+(* the first known-class step of the cached run of a history (with its position), if any *)
+Fixpoint first_known (st : state) (ops : list op) (i : N) : option (N * kclass) :=
   match ops with
   | [] => None
   | o :: r =>
-      if hit_irregular st o then Some i
-      else match step true st o with
-           | Some (_, st') => first_irregular st' r (i + 1)
-           | None => None
-           end
+      match known_step st o with
+      | Some c => Some (i, c)
+      | None => match step true st o with
+                | Some (_, st') => first_known st' r (i + 1)
+                | None => None
+                end
+      end
   end.
-Definition Irregular (ops : list op) : Prop := first_irregular init ops 0 <> None.
+Definition KnownClass (ops : list op) : Prop := first_known init ops 0 <> None.
+
+(* =========================================================================================== refutation witnesses (old transitions) *)
+(* ------------------------------------------------------------------------------------------- witnesses *)
+Definition dd (v : val) (w e c : bool) : pdesc := {| d_kind := KData (Some v) (Some w); d_enum := Some e; d_conf := Some c |}.
+Definition da (g s : val) (e c : bool) : pdesc := {| d_kind := KAcc (Some g) (Some s); d_enum := Some e; d_conf := Some c |}.
+
+(* DESIGN.md section 5 #11: `delete p.y; p.z = 7` then `o.y` reads 7 *)
+Definition w_proto_layout : list op :=
+  [OpAlloc false None; OpDefine 2 0 (dd (VNum 1) true true true); OpDefine 2 1 (dd (VNum 2) true true true);
+   OpAlloc false (Some 2); OpGet 0 1 3; OpGet 0 1 3; OpDelete 2 1; OpDefine 2 2 (dd (VNum 7) true true true); OpGet 0 1 3].
+(* ... and `delete proto.a` after caching `o.b` indexes out of bounds *)
+Definition w_proto_panic : list op :=
+  [OpAlloc false None; OpDefine 2 0 (dd (VNum 1) true true true); OpDefine 2 1 (dd (VNum 2) true true true);
+   OpAlloc false (Some 2); OpGet 0 1 3; OpGet 0 1 3; OpDelete 2 0; OpGet 0 1 3].
+(* #12: cached `globalThis.y = v` still writes after writable:false *)
+Definition w_unique_attr : list op :=
+  [OpDefine 1 0 (dd (VNum 1) true true true); OpSet 0 0 1 (VNum 2); OpSet 0 0 1 (VNum 3);
+   OpDefine 1 0 {| d_kind := KData None (Some false); d_enum := None; d_conf := None |}; OpSet 0 0 1 (VNum 4); OpGetGlobal 0 0].
+(* an own global shadows a cached Object.prototype property in place *)
+Definition w_unique_shadow : list op :=
+  [OpDefine 0 0 (dd (VNum 1) true true true); OpGetGlobal 0 0; OpGetGlobal 0 0; OpDefine 1 0 (dd (VNum 2) true true true); OpGetGlobal 0 0].
+(* strict set through a cached accessor slot whose setter became undefined *)
+Definition w_setter_missing : list op :=
+  [OpAlloc false None; OpDefine 2 0 (da (VFun 1) (VFun 2) true true); OpSet 0 0 2 (VNum 1); OpSet 0 0 2 (VNum 2);
+   OpDefine 2 0 {| d_kind := KAcc None (Some VUndef); d_enum := None; d_conf := None |}; OpSet 0 0 2 (VNum 3)].
+
+Definition refuted (ops : list op) : Prop := observable (run_cached ops) <> observable (run_uncached ops).
+
+Lemma known_witness_lemma :
+  (first_known init w_proto_layout 0 = Some (6, KProtoLayout) /\ refuted w_proto_layout) /\
+  (first_known init w_proto_panic 0 = Some (6, KProtoLayout) /\ refuted w_proto_panic) /\
+  (first_known init w_unique_attr 0 = Some (3, KUniqueAttr) /\ refuted w_unique_attr) /\
+  (first_known init w_unique_shadow 0 = Some (3, KUniqueShadow) /\ refuted w_unique_shadow) /\
+  (first_known init w_setter_missing 0 = Some (5, KSetterMissing) /\ refuted w_setter_missing).
+Proof.
+  repeat split; try (vm_compute; reflexivity); unfold refuted; vm_compute; intro H; discriminate H.
+Qed.
+
+(* the out-of-bounds case: the cached run panics, the uncached one does not *)
+Lemma proto_panic_lemma : In None (run_cached w_proto_panic) /\ ~ In None (run_uncached w_proto_panic).
+Proof.
+  split.
+  - vm_compute. repeat (first [left; reflexivity | right]).
+  - vm_compute. intuition discriminate.
+Qed.
+
+
+Definition run_cached_old := run_cached.
+Definition run_uncached_old := run_uncached.
+Definition step_old := step.
+Definition ic_get_old := ic_get.
+Definition ic_set_old := ic_set.
+Definition shape_change_attrs_old := shape_change_attrs.
+Definition cached_set_old := cached_set.
+Definition first_known_old := first_known.
